@@ -22,6 +22,7 @@ package main
 //@ ensures imp(s == "", result == "")
 
 //@ extern strings.Split(s, sep)
+//@ ensures fresh(result)
 //@ ensures imp(sep != "", len(result) >= 1 && !isnilslice(result))
 //@ ensures imp(sep != "" && !strcontains(s, sep), len(result) == 1 && result[0] == s)
 //@ ensures imp(sep != "" && strcontains(s, sep), len(result) >= 2 && result[0] == s[0:indexof(s, sep)])
@@ -56,3 +57,13 @@ package main
 // ---- gogo generator: import registration
 //@ extern generator.PluginImports.NewImport(p, path)
 //@ ensures result != nil
+
+// ---- gogo generator objects: every descriptor object belongs to a file
+//@ extern generator.common.File(c)
+//@ ensures result != nil
+
+// ---- resolved message descriptors carry their proto and their oneof declarations (gogo builds them so)
+// (part of the supported fragment D: descriptor well-formedness as protoc and gogo guarantee it)
+//@ extern generator.Generator.ObjectNamed(g, typeName)
+//@ ghost j0 int
+//@ ensures imp(is(result, *generator.Descriptor) && as(result, *generator.Descriptor) != nil, descOK(g, as(result, *generator.Descriptor), j0))
